@@ -32,6 +32,8 @@ Positive hygiene (section "Hygiene, positive part"; induction over the model's o
   * `canon_of_related`, `alpha_of_related` : forms in the hygienic-renaming relation `FR` (template binders `##s` ~ `s%k`
                         by innermost binder, flagged free identifiers ~ `s%k` when nothing captures them) have the same
                         canonical form; programs related form by form are α-equivalent
+  * `stored_vs_stamped_template`, `instantiate_stored_vs_stamped_flat` : the stored template vs the stamped written
+                        template (`TR`), and their instantiations with agreeing bindings (`OR`), ellipsis-free templates
   * `G_iff`            : `G` = conjunction of the seven negated class predicates (K13a, b, c, d, f, g, j)
 Agreement with the R7RS matcher / instantiator (section "Agreement of steel's matcher / instantiator …"):
   * `match_spec`       : for EVERY well-formed pattern list (any nesting, one ellipsis per list over any
@@ -60,6 +62,7 @@ import SteelVerif.C13.LemmasScope4
 import SteelVerif.C13.LemmasSkel
 import SteelVerif.C13.LemmasAlpha2
 import SteelVerif.C13.LemmasSpecTotal
+import SteelVerif.C13.LemmasCorr2
 namespace SteelVerif.C13
 set_option linter.unusedSimpArgs false
 set_option linter.unusedVariables false
@@ -605,6 +608,76 @@ theorem relM_relS : FR [] 0 relM relS :=
 example : alphaEq [relM] [relS] = true :=
   alpha_of_related [relM] [relS] (FRL.cons relM_relS FRL.nil) (by decide) (by decide)
 
+/-! ## Single-level hygiene, templates without ellipsis: what is proved and what is missing
+
+`HygieneSingleLevelFlat` is the target (kept visible, NOT proved).  Proved links of the chain
+`expandM prog` / `expandS prog`  →  related forms (`FR`)  →  `alphaEq` (`alpha_of_related`):
+
+  * `stored_vs_stamped_template` : the stored template of a compiled case is `TR`-related to the written template
+        stamped with the step number — pattern variable `##a` ~ `a`, renamed identifier `##s` ~ `s%k`, flagged free
+        identifier `s` ~ `s%k`, same structure (hypothesis: no unprefixed atom of the stored template is a pattern
+        variable, decidable; it fails only for a pattern variable that is also a literal);
+  * `instantiate_stored_vs_stamped_flat` : instantiating `TR`-related templates with bindings that agree (`EnvCorr`)
+        gives `OR`-related forms: substituted user forms equal up to flags, `##s` opposite `s%k`, a flagged `s`
+        opposite `s%k`, same structure (through `mkList`).
+
+  * `single_step_flat` : both assembled for ONE expansion step of a case with a flat pattern `(_ a₁ … aₙ)`: the
+        R7RS matcher succeeds and the two instantiations are `OR`-related (`EnvCorr` is proved for flat patterns;
+        for nested / ellipsis patterns it needs `collect (mangleList ps) = rename-keys (collect ps)`).
+
+Missing, exactly: (ii) `OR → FR`: the substituted user forms are `FR`-related to themselves (needs well-formed binding
+forms in user code: `canon` keeps a non-identifier parameter with its flags), every `##s` of the instance lies
+under its `##s` binder in `canon`'s scoping (`scoping_under_Gd` gives it for `freeOcc`'s scoping: one more
+alignment, through the substitution), `NoCapture` for the flagged identifiers from `G.a`/`G.d`; (iii) the
+program-level traversal: `expM`/`expS` on a program whose only macro uses are non-nested, where the re-expansion of
+an instantiated template is the identity.  The ellipsis case additionally needs `instantiate_stored_vs_stamped` for
+`okT` templates (the `x ...` splice on both sides, as in `instantiate_agree`, with `TR` instead of equality) and the
+nested sub-template case listed under `InstantiateSpec`. -/
+
+/-- The target (not proved): one macro definition, an ellipsis-free template, non-nested uses, under `G`. -/
+def HygieneSingleLevelFlat : Prop :=
+  ∀ (fuel : Nat) (p : Prog), (p.forms.filter isDefineSyntax).length = 1 →
+    (∀ d ∈ p.forms.filter isDefineSyntax, d.hasEllipsis = false) → G fuel p = true → hygienicAt fuel p = true
+
+/-- `stored_vs_stamped_template` -/
+theorem stored_vs_stamped_template (name : Name) (lits : List Name) (pattern body : Sexp) (cs : MacroCase)
+    (hc : compileCase name lits pattern body = .ok cs) (hsrc : srcForm body) (hne : body.hasEllipsis = false)
+    (pv : List Name) (k : Nat) (hnp : ∀ a ∈ cs.body.atoms, a.1.hashes = 0 → a.1 ∉ pv) :
+    TR pv k cs.body (stampT k pv body) :=
+  tr_of_compile name lits pattern body cs hc hsrc hne pv k hnp
+
+/-- `instantiate_stored_vs_stamped_flat` -/
+theorem instantiate_stored_vs_stamped_flat (pv : List Name) (k : Nat) (c : ICtx) (env : Env) (fb : Bindings)
+    (senv : SBind) (he : EnvCorr pv k env senv) (n n' : Nat) (t' t'' r r' : Sexp)
+    (htr : TR pv k t' t'') (hnh : noHashAtoms c t')
+    (hM : visit n c env fb t' = .ok r) (hS : specInst n' senv t'' = .ok r') : OR k r r' :=
+  (inst_corr pv k c env fb senv he n).1 t' t'' r r' n' htr hnh hM hS
+
+/-- `single_step_flat`: ONE expansion step of a macro case with a flat pattern `(_ a₁ … aₙ)` and an ellipsis-free
+template, on the model of the code (`MacroCase::expand`: collect on the mangled variables, mark, instantiate the
+stored template) and on the specification (R7RS match on the written variables, instantiate the template stamped
+with the step number `k`): the R7RS matcher succeeds, and whenever both instantiations succeed their results are
+`OR`-related — the substituted user forms equal up to flags, every `##s` of the template opposite `s%k`, every
+flagged free identifier `s` opposite `s%k`, same structure. -/
+theorem single_step_flat (name : Name) (lits : List Name) (pattern body : Sexp) (cs : MacroCase)
+    (hc : compileCase name lits pattern body = .ok cs) (hsrc : srcForm body) (hne : body.hasEllipsis = false)
+    (names : List Name) (hpats : cs.pats.drop 1 = names.map (fun a => Pat.var a.hash))
+    (hnd : names.Nodup) (hw : ∀ a ∈ names, a ≠ wildcard) (hpl : ∀ a ∈ names, Plain a)
+    (hnp : ∀ a ∈ cs.body.atoms, a.1.hashes = 0 → a.1 ∉ names)
+    (c : ICtx) (hnh : noHashAtoms c cs.body) (litEq : Name → Name → Bool) (k : Nat)
+    (args : List Sexp) (hl : (args.drop 1).length = names.length) (r : Sexp)
+    (hM : expandCase c cs args false = .ok r) :
+    ∃ sb, specItems litEq (names.map Pat.var) (args.drop 1) none = some sb ∧
+      ∀ (n' : Nat) (r' : Sexp), specInst n' sb (stampT k names body) = .ok r' → OR k r r' := by
+  obtain ⟨e, sb, he, hs, hcorr⟩ := envCorr_flat litEq
+    (expectedCaptures (cs.pats.drop 1) (args.drop 1).length false) (args.drop 1).length k names (args.drop 1)
+    hl hnd hw hpl
+  refine ⟨sb, hs, fun n' r' hS => ?_⟩
+  rw [hpats] at he
+  simp only [expandCase, collect, hpats, he, instantiate] at hM
+  exact instantiate_stored_vs_stamped_flat names k c (markEnv e) [] sb hcorr _ n' cs.body _ r r'
+    (stored_vs_stamped_template name lits pattern body cs hc hsrc hne names k hnp) hnh hM hS
+
 /-! ## Agreement of steel's matcher / instantiator with the R7RS ones (towards `hygiene_partial`)
 
 `InstantiateSpec` is the full statement (kept visible, NOT proved): for every well-formed pattern list and every
@@ -783,5 +856,21 @@ example : (match visit 5 {} { b := [(nm "a", lst [.int 1, .int 2])], many := [nm
       specInst 5 [(nm "a", .node [.leaf (.int 1), .leaf (.int 2)])] (lst [sx "f", sx "a", Sexp.ell, .int 0]) with
     | .ok r, .ok r' => r.unmark == r'.unmark && r' == lst [sx "f", .int 1, .int 2, .int 0]
     | _, _ => false) = true ∧ okT (lst [sx "f", sx "a", Sexp.ell, .int 0]) = true := by decide
+
+/-- non-vacuity: the case of `or2` — the stored template `(let ((##tmp ##a)) (if ##tmp ##tmp ##b))` against
+`(let ((tmp%1 a)) (if tmp%1 tmp%1 b))` -/
+example : (match compileCase (nm "or2") [] or2Pattern or2Body with
+    | .ok cs => cs.body.atoms.all (fun a => a.1.hashes != 0 || !([nm "a", nm "b"].contains a.1))
+    | .error _ => false) = true ∧ srcForm or2Body ∧ or2Body.hasEllipsis = false := by decide
+
+/-- `single_step_flat` on `or2`: the pattern list after the keyword is `(##a ##b)`, the variables are plain, distinct,
+not `_`; `(or2 #f tmp)` has two arguments; the expansion succeeds -/
+example : (match compileCase (nm "or2") [] or2Pattern or2Body with
+    | .ok cs =>
+        (match cs.pats.drop 1 with
+         | [.var x, .var y] => x == (nm "a").hash && y == (nm "b").hash
+         | _ => false) &&
+        (match expandCase {} cs or2Use false with | .ok _ => true | .error _ => false)
+    | .error _ => false) = true ∧ [nm "a", nm "b"].Nodup ∧ (or2Use.drop 1).length = 2 := by decide
 
 end SteelVerif.C13
